@@ -16,6 +16,9 @@ inductive ValueKind where
   | definitionOnly
   /-- write-once entry of a module-level cache keyed by what determines the value -/
   | keyedCache
+  /-- an entry of a module-level cache that is stored BEFORE the stored object is complete (publish-before-fill): another
+      thread can take the half-built object out of the cache -/
+  | publishedIncomplete
   deriving DecidableEq, Repr
 
 structure SharedWrite where
@@ -36,6 +39,7 @@ def SharedWrite.safe (r : SharedWrite) : Bool :=
   | .keyedCache => true
   | .perCall => false
   | .ownerName => false
+  | .publishedIncomplete => false
 
 /-- known-finding key of a site -/
 def SharedWrite.key (r : SharedWrite) : String := "shared-" ++ r.attr ++ ":" ++ r.file ++ ":" ++ r.func
